@@ -7,6 +7,7 @@ from vp.engine import SubCheck
 
 PROPERTY = "C10"
 RULE = (
+    "(extended) sub-check derived: all sets read on a parent mask, then on a mask derived from it by invert / copy+edit / copy.copy+edit / deepcopy+edit / in-place edit, each against the definitions for its CURRENT contents, plus one held DeriveIndexes2D object read several times in generated order. "
     "enum: every boolean mask with >=1 unmasked pixel on every shape with H*W<=12 (quick) / <=16 (thorough), "
     "including unmasked pixels on the outer ring, edge/border views checked on each and blurring masks for "
     "kernels (1,1),(3,3),(1,3),(3,1),(5,3),(3,5); given: Hypothesis masks up to 11x11 (holes, several components, "
